@@ -41,6 +41,7 @@ pub fn begin_call(opi: i32) {
         w.drop_seen_in_call = 0;
         w.exec_before = state::executions_count().unwrap_or(0);
         w.stats.ops_run += 1;
+        w.glue_targets.clear();
         w.flags.fin_in_collector_call = 0;
         w.flags.rc_drops_in_call = 0;
         w.flags.rc_drop_hist_in_call = false;
@@ -98,6 +99,12 @@ pub fn end_call(r: Result<(), Box<dyn std::any::Any + Send>>) {
             // frames / in-flight pointers of the unwound call are gone
             w.frames.clear();
             w.clean_calls.clear();
+            w.pinned.clear();
+            let mut fl: Vec<Oid> = w.inflight.keys().copied().collect();
+            fl.extend(w.glue_targets.iter().copied());
+            for oid in fl {
+                w.objs[oid as usize].slack = true;
+            }
             w.inflight.clear();
             // taint: objects unreachable now may have been left half-processed
             let reach = w.reach(None);
@@ -470,13 +477,12 @@ impl ActionEnv {
 #[cfg(feature = "cleaners")]
 impl Drop for ActionEnv {
     fn drop(&mut self) {
-        self.release_captured();
+        // bookkeeping that cannot unwind first: releasing the captured Cc may run callbacks
         if let Some((t, wk)) = self.owner_weak.take() {
             {
                 let _b = Bracket::open();
                 drop(wk);
             }
-            let _ = t;
             w(|w| {
                 if let Some(n) = w.extra_weak.get_mut(&t) {
                     *n -= 1;
@@ -486,8 +492,15 @@ impl Drop for ActionEnv {
                 }
             });
         }
-        let aid = self.aid;
-        w(|w| w.actions[aid].done = true);
+        struct Done(usize);
+        impl Drop for Done {
+            fn drop(&mut self) {
+                let aid = self.0;
+                w(|w| w.actions[aid].done = true);
+            }
+        }
+        let _d = Done(self.aid);
+        self.release_captured();
     }
 }
 
@@ -561,6 +574,17 @@ fn do_register(h: Sel, act: &[ActOp], cap: Option<Sel>, weak_owner: bool) {
     let serial0 = alloc::serial_now();
     let exec0 = state::executions_count().unwrap_or(0);
     let cleanable = {
+        // the program borrows handle `hi` for the duration of the call
+        struct Pin;
+        impl Drop for Pin {
+            fn drop(&mut self) {
+                w(|w| {
+                    w.pinned.pop();
+                });
+            }
+        }
+        w(|w| w.pinned.push(hi));
+        let _pin = Pin;
         let _b = Bracket::open();
         n.cleaner.register(closure)
     };
